@@ -451,6 +451,8 @@ fn main() {
             s.case(tc, format!("TERM W={w} H={h} stream={:?}", ops), ops.len() >= 5);
         }
     }
+    // oracle-only: double-width texts on even widths, judged on the vt100 crate (class 'wide-text-rows-miscounted')
+    verif_harness::sysoracle::wide_text_stream(&mut s, &mut r, if a.thorough { 1000 } else { 120 });
     s.count_n("oracle_screen_checks", checked_total);
     s.finish();
 }
